@@ -208,6 +208,13 @@ def r172(ctx):
         for bi, c in mb.calls():
             if c.callee and c.callee.name == LS + "compute_shared_hmac":
                 a = [render(mv.expr(x)) for x in c.args]
+                import re as _re
+                mnew = _re.search(r"const ([\w:]+)", a[1])
+                if mnew and R.is_new_const(mnew.group(1)):
+                    # a constant introduced by the change: its value is not visible in the MIR of this function (array
+                    # constants are not evaluated by the driver) - nothing to decide at this site
+                    ctx.sample("R17.2", f"{mb.name}/domain-tag", f"{mb.file}:{c.line}", f"tag is the new constant {mnew.group(1)} (value not decided)")
+                    continue
                 ok = a[0].endswith("self.shared_secret") and a[2] == "kvs" and (f"0x0{tag}" in a[1] or f"[{tag}" in a[1] or str(tag) in a[1])
                 ctx.ob("R17.2", ok, f"{mb.name}/domain-tag", f"{m}: compute_shared_hmac({[x[:50] for x in a]})", where=f"{mb.file}:{c.line}", sample=[x[:40] for x in a])
     # entropy implementation uses a CSPRNG fill
